@@ -86,7 +86,7 @@ def rule_G3(prog, fixture=False):
             if not writes_this:
                 continue
             sinks += 1
-            g = ctx.relating_guard_at(n, THIS, sobj, need_throw=True)
+            g = ctx.relating_guard_at(n, THIS, sobj, need_throw=True, big="both")
             if g is not None:
                 guard = g
             else:
@@ -100,7 +100,7 @@ def rule_G3(prog, fixture=False):
                     if lhs.k == "UnaryOperator" and lhs.c and lhs.c[0].strip_all().k == "CXXThisExpr":
                         continue      # (*this = ...) is a delegation, handled above
                     sinks += 1
-                    g = ctx.relating_guard_at(n, THIS, sobj, need_throw=True)
+                    g = ctx.relating_guard_at(n, THIS, sobj, need_throw=True, big="both")
                     if g is not None:
                         guard = g
                     else:
